@@ -143,12 +143,13 @@ def check(case, ctx):
         return res
 
     def ref(i, how):
-        return i if how == 'pos' else m.dims[i]
+        # by position, by position counted from the end, or by name
+        return i if how == 'pos' else i - nd if how == 'neg' else m.dims[i]
 
     if fam == 'transpose' and nd:
         for p in itertools.permutations(range(nd)):
-            how = rng.choice(['pos', 'name', 'mixed'])
-            arg = [ref(i, rng.choice(['pos', 'name']) if how == 'mixed' else how) for i in p]
+            how = rng.choice(['pos', 'name', 'mixed', 'neg', 'mixed'])
+            arg = [ref(i, rng.choice(['pos', 'name', 'neg']) if how == 'mixed' else how) for i in p]
             variadic = rng.random() < 0.5
             fn = (lambda arg=arg: a.transpose(*arg)) if variadic else (lambda arg=arg: a.transpose(arg))
             judge("a.transpose(%s%r)" % ('*' if variadic else '', arg), fn, [m.dims[i] for i in p], exp_values=np.transpose(m.values, p))
